@@ -4,7 +4,8 @@
 EXTENDS TraceKit, C08_Operators
 VARIABLES ci, ei, st, nj, ns, ne
 InitState(c) == [g |-> [P |-> c.given.P, F |-> c.given.F, E |-> c.given.E, C |-> c.given.C],
-                 D |-> Derive(c.given.F, Len(c.given.P), c.given.E), fam |-> c.given.family]
+                 D |-> Derive(c.given.F, Len(c.given.P), c.given.E), fam |-> c.given.family,
+                 hist |-> c.given.hist]          \* "" / "warm" (cacheable attributes computed before) / "moved" (... and the mesh moved afterwards)
 Diag(v) == [i \in 1..Len(v) |-> [j \in 1..Len(v) |-> IF i = j THEN v[i] ELSE Zero]]
 AllRat(M) == \A i \in 1..Len(M) : \A j \in 1..Len(M[i]) : M[i][j][2] > 0
 Sq(M) == [i \in 1..Len(M) |-> [j \in 1..Len(M[i]) |-> RMul(M[i][j], M[i][j])]]
@@ -13,7 +14,7 @@ Judge(c, s, e) ==
   LET g == s.g
       D == s.D
       nm == e.name
-      cls == nm \o (IF e.opt # "" THEN "/" \o e.opt ELSE "")
+      cls == nm \o (IF e.opt # "" THEN "/" \o e.opt ELSE "") \o (IF s.hist = "moved" THEN "/after_transform" ELSE IF s.hist = "warm" THEN "/attributes_cached" ELSE "")
       eq(want, clause) == Check(<< << e.exc = "", "operator_is_computed" >>, << e.M = want, clause >> >>, cls, "", s)
       tri == \A f \in 1..Len(g.F) : Len(g.F[f]) = 3
   IN
